@@ -15,6 +15,15 @@ EXPECTED = {
     "padSub": 1, "padDiv": 2, "admmRho": 1, "admmMaxIter": 1000,
     "admmTolNum": 1, "admmTolDen": 1000000,
     "convSlackNum": 1, "convSlackDen": 10000,
+    # structure of the main loop's round (translated, not just a literal): the phase calls in source order,
+    # 1 = repopulate_empty_clusters, 2 = update_all_cluster_statistics, 3 = optimize_markov_random_fields,
+    # 4 = predict_cluster_labels; whether the repopulation call sits under the `current_iteration > k` guard;
+    # whether the loop is `for … in range(<…>.iteration_limit)`
+    "phaseOrder": [1, 2, 3, 4], "repopGuarded": 1, "loopOverLimit": 1,
+    # structure of the ADMM sweep (solver.run_admm_optimization): the update calls in source order (1 = X, 2 = Z,
+    # 3 = U), the iteration index after which the stopping rule is consulted (`if iteration > k`), and which
+    # variable is returned (1 = x, 2 = z, 3 = u)
+    "admmUpdateOrder": [1, 2, 3], "admmCheckAfter": 0, "admmReturns": 1,
 }
 
 DOC = {
@@ -33,6 +42,12 @@ DOC = {
     "admmTolDen": "",
     "convSlackNum": "`sqrt(n) * abs_tol + 0.0001`: additive slack as num/den",
     "convSlackDen": "",
+    "phaseOrder": "the phase calls of one round of fit_stacked_data, in SOURCE ORDER (1 repopulate, 2 statistics, 3 optimise, 4 relabel)",
+    "repopGuarded": "1 iff the repopulation call sits under the `current_iteration > repopAfterRound` guard",
+    "loopOverLimit": "1 iff the round loop is `for current_iteration in range(<…>.iteration_limit)`",
+    "admmUpdateOrder": "the update calls of one ADMM sweep in SOURCE ORDER (1 = admm_update_x, 2 = admm_update_z, 3 = admm_update_u)",
+    "admmCheckAfter": "`if iteration > 0`: the stopping rule is consulted only after this sweep index",
+    "admmReturns": "the variable run_admm_optimization returns (1 = x, 2 = z, 3 = u)",
 }
 
 
@@ -116,6 +131,42 @@ def extract(repo):
                     elif k is not None and isinstance(n.test.ops[0], ast.GtE) and k >= 1:
                         found["repopAfterRound"] = k - 1
 
+        if f:
+            names = {"repopulate_empty_clusters": 1, "update_all_cluster_statistics": 2,
+                     "optimize_markov_random_fields": 3, "predict_cluster_labels": 4}
+            for loop in ast.walk(f):
+                if not (isinstance(loop, ast.For) and isinstance(loop.target, ast.Name)
+                        and loop.target.id == "current_iteration"):
+                    continue
+                order, guarded = [], 0
+
+                def visit(stmts, under_if):
+                    nonlocal guarded
+                    for st in stmts:
+                        if isinstance(st, ast.If):
+                            is_guard = (isinstance(st.test, ast.Compare) and isinstance(st.test.left, ast.Name)
+                                        and st.test.left.id == "current_iteration")
+                            visit(st.body, under_if or is_guard)
+                            visit(st.orelse, under_if)
+                            continue
+                        if isinstance(st, (ast.For, ast.While, ast.With, ast.Try)):
+                            visit(getattr(st, "body", []), under_if)
+                            continue
+                        for n in ast.walk(st):
+                            if isinstance(n, ast.Call) and isinstance(n.func, ast.Attribute) and n.func.attr in names:
+                                order.append(names[n.func.attr])
+                                if names[n.func.attr] == 1 and under_if:
+                                    guarded = 1
+                visit(loop.body, False)
+                if sorted(order) == [1, 2, 3, 4]:
+                    found["phaseOrder"] = order
+                    found["repopGuarded"] = guarded
+                it = loop.iter
+                found["loopOverLimit"] = int(isinstance(it, ast.Call) and isinstance(it.func, ast.Name)
+                                             and it.func.id == "range" and len(it.args) == 1
+                                             and "iteration_limit" in ast.dump(it.args[0]))
+                break
+
     met = parse("cluster_metrics.py")
     if met is not None:
         f = _func(met, "bayesian_information_criterion")
@@ -170,6 +221,32 @@ def extract(repo):
 
     so = parse(os.path.join("admm", "solver.py"))
     if so is not None:
+        f = _func(so, "run_admm_optimization")
+        if f:
+            names = {"admm_update_x": 1, "admm_update_z": 2, "admm_update_u": 3}
+            for loop in ast.walk(f):
+                if not isinstance(loop, ast.For):
+                    continue
+                order = []
+                for st in loop.body:
+                    if isinstance(st, ast.Assign) and isinstance(st.value, ast.Call):
+                        fn = st.value.func
+                        nm = fn.id if isinstance(fn, ast.Name) else fn.attr if isinstance(fn, ast.Attribute) else None
+                        if nm in names:
+                            order.append(names[nm])
+                    if (isinstance(st, ast.If) and isinstance(st.test, ast.Compare) and isinstance(st.test.left, ast.Name)
+                            and st.test.left.id == "iteration" and len(st.test.ops) == 1):
+                        k = _const_int(st.test.comparators[0])
+                        if k is not None and isinstance(st.test.ops[0], ast.Gt):
+                            found["admmCheckAfter"] = k
+                        elif k is not None and isinstance(st.test.ops[0], ast.GtE) and k >= 1:
+                            found["admmCheckAfter"] = k - 1
+                if sorted(order) == [1, 2, 3]:
+                    found["admmUpdateOrder"] = order
+                break
+            for st in f.body:
+                if isinstance(st, ast.Return) and isinstance(st.value, ast.Name) and st.value.id in ("x", "z", "u"):
+                    found["admmReturns"] = {"x": 1, "z": 2, "u": 3}[st.value.id]
         f = _func(so, "check_convergence")
         if f:
             for n in ast.walk(f):
@@ -195,7 +272,10 @@ def render(values):
     for name in EXPECTED:
         if DOC.get(name):
             lines.append(f"/-- {DOC[name]} -/")
-        lines.append(f"def {name} : Nat := {values[name]}")
+        if isinstance(values[name], list):
+            lines.append(f"def {name} : List Nat := [" + ", ".join(str(x) for x in values[name]) + "]")
+        else:
+            lines.append(f"def {name} : Nat := {values[name]}")
     lines += ["", "end FastTicc.Constants", ""]
     return "\n".join(lines)
 
@@ -206,8 +286,11 @@ def regenerate(repo, lean_dir):
     values = dict(EXPECTED)
     unavailable = []
     for k in EXPECTED:
-        if k in found and isinstance(found[k], int) and found[k] >= 0:
+        if k in found and isinstance(found[k], int) and not isinstance(EXPECTED[k], list) and found[k] >= 0:
             values[k] = found[k]
+        elif k in found and isinstance(EXPECTED[k], list) and isinstance(found[k], list) \
+                and all(isinstance(x, int) and x >= 0 for x in found[k]):
+            values[k] = list(found[k])
         else:
             unavailable.append(k)
     text = render(values)
